@@ -67,7 +67,13 @@ def make_ctx():
     def showlog():
         return ",".join(log)
 
+    def _pysc(context):
+        boom(Boom, "pysc")
+
+    from mako import runtime as _rt  # (callers have run core.setup_repo())
+
     return {
+        "pysc": _rt.supports_caller(_pysc),
         "cs": "S", "cn": 3, "cx0": "X0", "cx1": "X1", "cl": ["p", "q", "r"], "ce": [], "cd": {"k": "v"}, "ct": (("a", 1), ("b", 2)),
         "gen": gen, "rec": rec, "boom": boom, "showlog": showlog, "Boom": Boom, "Boom2": Boom2,
         "deco": deco, "deco2": deco2, "ident": lambda z: z,
